@@ -380,7 +380,7 @@ Qed.
 Lemma step_walk o fl x k : refines_step (OWalk o fl x k).
 Proof.
   intros h s I. cbn [sstep].
-  destruct (focus x (lists s)) as [[[c l1] tx] l2|] eqn:FX.
+  destruct (focus x (lists s)) as [[[[c l1] tx] l2]|] eqn:FX.
   - rewrite (walk_calls _ _ _ _ _ _ _ o fl k I FX).
     destruct (cutk k (swalk o fl (tx :: l2))) as [l r]. cbn [fst snd]. exists h. split; [reflexivity|exact I].
   - cbn [mstep]. rewrite (live_iff _ _ _ I).
